@@ -12,7 +12,7 @@ sys.path.insert(0, os.path.join(os.path.dirname(os.path.abspath(__file__)), '..'
 from sa import normalise  # noqa: E402
 
 name = sys.argv[1]
-kind = 'benign' if os.path.isdir('/verif/benign/' + name) else 'seeded'
+kind = 'seeded' if ('--seeded' in sys.argv or not os.path.isdir('/verif/benign/' + name)) else 'benign'
 tmp = tempfile.mkdtemp(prefix='pyerr_show_')
 try:
     shutil.copytree('/repo/pyerrors', tmp + '/pyerrors')
